@@ -33,6 +33,7 @@ CHECKS.update({
    technique="runtime monitoring: real ProposalHandler::validate_proposal / prepare_proposal / price aggregation driven with harness-signed vote extensions on a post-Aspen ChainSim state; offline exact-integer oracle over the recorded cases",
    text="Every voting-power vector over a 9-value alphabet for <=3 (quick) / <=4 (thorough) validators x every signer subset, each with the all-valid extended commit and rotating defects (forged / mis-attributed / wrong height, round or chain signatures, missing signature, oversized / malformed / unknown-pair extensions, duplicated voter, outsider, nil vote with extension, five kinds of last-commit mismatch), plus the empty extended commit; accepted commits have their published prices compared with the min/max of the reported prices (signed 128-bit extremes, negative values, even and odd reporter counts).",
    note="validity of signatures and last-commit agreement is known by construction; the ABCI wrapping (DataItem encoding, proposed_last_commit plumbing) is exercised by the ChainSim profiles with empty extensions only"),
+ "C07": _chain("C07", "rollups", "After every commit the real GetSequencerBlock / GetFilteredSequencerBlock handlers are called (every subset of the block's rollup ids plus an absent id for <=4 rollups, sampled above) and decoded with the public checked types; the block is split for Celestia and audited conductor-style with an independent RFC 6962 root; the oracle compares every view with the block's rollup submissions in execution order followed by its deposits (from the lab's diffs), and a catalogue of 19 single-element tamperings of the served / published artefacts must be rejected by the receiver-side verification."),
 })
 
 CHECKS["C13"] = dict(engine="mempool-walk", cat="exploration", ref="DESIGN.md §5 C13",
